@@ -1246,6 +1246,10 @@ def fixed_cases():
          "`none` in the then branch, a typed option in the else branch: ?int"),
         ("if-join-none-else", "fn main() { let c = true; let y = if c { ?1 } else { none }; println(y); }\n", True, "`none` in the else branch: ?any (implicit any)"),
         ("if-join-mismatch", 'fn main() { let c = true; let z = if c { ?1 } else { ?"s" }; println(z); }\n', True, "incompatible option branches"),
+        # a variadic function with fixed leading parameters needs at least those: exactly those is enough
+        ("variadic-exact-fixed", 'fn show(s: str) -> str { fmt(s) }\nfn main() { println(fmt("plain")); println(fmt("%d-%s", 1, "two")); println(show("== hi ==")); println(); print(); }\n', False,
+         "fmt called with its format string only"),
+        ("variadic-too-few", "fn main() { println(fmt()); }\n", True, "fmt without its format string"),
         # the identifier of a catch block lives in the catch block only
         ("catch-ident-after", 'fn main() { try { throw("x"); } catch e { println(e.message); } println(e.message); }\n', True, "catch identifier used after the try expression"),
         ("catch-ident-after-fn", 'fn f() -> str { let r = try { "a" } catch err { err.message }; err.message }\nfn main() { println(f()); }\n', True, "catch identifier used after the try expression (function tail)"),
